@@ -83,6 +83,11 @@ CHECKS = {
          "DESIGN.md section 4 (C05)",
          "read errors while a position is being relocated are counted, not judged (documented 'omit it' behaviour); the hint dumper loop is left out of the race build (GC vs dumper data races are listed in DESIGN.md as observed, outside the property)",
          "history recording + offline linearizability checking, deterministic park/release placements at GC hook points, race detector, AddressSanitizer"),
+ "C17": ("exploration",
+         "Eligibility: generated stores (1..6 small files, controlled first-record timestamps, gaps, three head states) x request tuples (start, end, no_gc_days, merge, pretend, incl. negatives and out-of-range ids); inventory (sha1) and FS-mutation hook log around every request; reference resolution of the range; a real pass may change only files inside the resolved range plus one earlier file that never shrinks, never the head, and only files the age limit allows. Single pass: overlap detector on gc.enter/gc.exit; four two-request schedules (back-to-back, concurrent, first parked after its check, first parked inside its pass), also under -race.",
+         "DESIGN.md section 4 (C17)",
+         "timestamps hours away from the no_gc_days boundary (the code reads the wall clock); record size at most half the data-file limit",
+         "inventory + hook-log monitor with reference range oracle; hook-based overlap detector with park/release schedules; race detector"),
 }
 
 NOT_YET = {
